@@ -31,6 +31,7 @@ var importMap = map[string]string{
 	"context":     ShimRoot + "vctx",
 	"time":        ShimRoot + "vtime",
 	"crypto/rand": ShimRoot + "vrand",
+	"math/rand":   ShimRoot + "vmrand",
 }
 
 // Dirs are the package directories (relative to the repository root) that are
